@@ -22,8 +22,20 @@ class SendAPI:
         self.allocators = allocs
         # constructors: call an allocator
         self.constructors = {}
+        def reaches_alloc_through_statics(f, depth=0, seen=None):
+            seen = seen if seen is not None else set()
+            for c in f.calls():
+                if c.callee in allocs:
+                    return True
+                g = P.functions.get(c.callee or "")
+                if g is not None and g.blocks and g.internal and g.name not in seen and depth < 3:
+                    seen.add(g.name)
+                    if reaches_alloc_through_statics(g, depth + 1, seen):
+                        return True
+            return False
         for f in P.repo_functions():
-            if any(c.callee in allocs for c in f.calls()):
+            # a constructor is the externally visible function that draws the number itself or through its own static helpers
+            if not f.internal and f.name not in allocs and reaches_alloc_through_statics(f):
                 # parameter roles: the i8 parameter stored as the type byte = the one also passed on to the hand-off; use DI names when present
                 names = [a.get("var") for a in sorted(f.allocas().values(), key=lambda a: a.id) if a.get("param")]
                 pidx = {}
